@@ -25,9 +25,14 @@ def setup():
 
 
 def asc(name):
+    """the tool's answer to "is this charset ASCII-compatible" (an oracle of the model); when the function itself raises, the
+    loader that calls it fails the same way: that is reported through the implementation's own result, here the answer is no"""
     setup()
     from lib import encodings as E
-    return bool(E.is_ascii_compatible_encoding(name))
+    try:
+        return bool(E.is_ascii_compatible_encoding(name))
+    except Exception:  # noqa
+        return False
 
 
 # ---------------------------------------------------------------- catalogs (text level) and their bytes
